@@ -587,6 +587,9 @@ func writeHeaderOnlyResponse(w io.Writer, res *http.Response) error {
 				return err
 			}
 		}
+		if _, err := io.WriteString(w, "\r\n"); err != nil {
+			return err
+		}
 	}
 
 	// End-of-header
